@@ -14,6 +14,7 @@ def run (kv : List (String × String)) : IO Res := do
   let some delivered := (get kv "delivered").bind parsePairs | return .bad "delivered"
   let states := splitList ((get kv "after_states").getD "-")
   let mut tags : List String := [s!"scen.{scen}", s!"result.{(result.splitOn ":").head!}"]
+  if get kv "helper" == some "1" then tags := "thread.nullsp" :: tags
   -- the request returned or unwound: nobody is left attached or stopped
   for st in states do
     match st.splitOn ":" with
